@@ -166,7 +166,8 @@ def oracle_c04(out):
     return fails
 
 def make_case(rng, quick):
-    g = nsgen.gen_graph(rng, n_ns=rng.randint(1, 3), n_nodes=rng.randint(1, 7 if quick else 10), value_gen=value_gen)
+    wide = rng.random() < 0.08      # many namespaces: two-digit local indices, long namespace tables
+    g = nsgen.gen_graph(rng, n_ns=rng.randint(10, 13) if wide else rng.randint(1, 3), n_nodes=rng.randint(12, 16) if wide else rng.randint(1, 7 if quick else 10), value_gen=value_gen)
     # one case in five: companion specifications parsed on their own - everything of the base namespace they name (types, parents, reference types) is undefined
     g.with_base = rng.random() >= 0.2
     g.split = rng.random() < 0.35
